@@ -755,7 +755,16 @@ static void make_file(vrng *r, int kind, uint32_t dict, unsigned nblocks, vbuf *
 	} else {
 		dict = declared;
 		uint32_t d = dict < 4096 ? 4096 : dict; if (d > (1u << 29)) d = 1u << 29;
-		lzip_member(r, pl->p, pl->n, 1, d, file);
+		// half of the .lz files: two members, the first with a much smaller dictionary than the second - the memory
+		// need has to be worked out again for every member, not only for the first one
+		if (pl->n >= 2 && vrng_chance(r, 1, 2)) {
+			size_t h = 1 + (size_t)vrng_below64(r, pl->n - 1);
+			uint32_t d1 = 4096u << vrng_below(r, 3); if (d1 > d) d1 = d;
+			lzip_member(r, pl->p, h, 1, d1, file);
+			lzip_member(r, pl->p + h, pl->n - h, 1, d, file);
+			hx_count("lzip_two_members_growing_dict", 1);
+		} else
+			lzip_member(r, pl->p, pl->n, 1, d, file);
 	}
 	lzma_end(&s);
 }
